@@ -107,7 +107,7 @@ func str(t *rapid.T, alpha []rune, min, max int, label string) string {
 func Gen(t *rapid.T) Case {
 	alpha := alphabet(t)
 	c := Case{}
-	shape := rapid.SampledFrom([]string{"core", "core", "core", "random", "wide", "leftmerge", "leftmerge", "touching"}).Draw(t, "shape")
+	shape := rapid.SampledFrom([]string{"core", "core", "core", "core", "core", "core", "random", "random", "wide", "wide", "leftmerge", "leftmerge", "leftmerge", "leftmerge", "touching", "touching", "many"}).Draw(t, "shape")
 	c.Shape = shape
 	var textParts []string
 	switch shape {
@@ -184,6 +184,12 @@ func Gen(t *rapid.T) Case {
 			c.Patterns = append(c.Patterns, str(t, alpha, 1, 3, "extraPat"))
 		}
 		textParts = append(textParts, str(t, alpha, 0, 2, "pre"), whole, str(t, alpha, 0, 2, "post"))
+	case "many":
+		// hundreds of occurrences in one text: buffers and tables sized for small inputs are crossed
+		a, b := str(t, alpha, 1, 1, "a"), str(t, alpha, 1, 2, "b")
+		c.Patterns = append(c.Patterns, a, a+a, b)
+		reps := rapid.SampledFrom([]int{130, 257, 300, 520}).Draw(t, "reps")
+		textParts = append(textParts, strings.Repeat(a, reps), b, strings.Repeat(a+b, reps/4))
 	case "touching":
 		a, b := str(t, alpha, 1, 3, "a"), str(t, alpha, 1, 3, "b")
 		c.Patterns = append(c.Patterns, a, b, a+b)
